@@ -8,16 +8,14 @@ import SolverzModel.Core.Lang
 import SolverzModel.Core.TimeSeries
 import SolverzModel.Proofs.Vars
 import SolverzModel.Proofs.Mass
+import SolverzModel.Proofs.Sel
 import Mathlib.Tactic.Linarith
 import Mathlib.Tactic.FieldSimp
 import Mathlib.Tactic.Ring
 namespace Solverz
 open SEx
 
-/-- the block of scalar expressions one equation contributes -/
-def eqBlock {α} (L : Layout) (e : Ex α) (target : Nat) : Except Err (List (SEx α)) := do
-  let n ← e.size L
-  (List.range (max n target)).mapM fun i => e.lower L (if n = 1 then 0 else i)
+open LModel (eqBlock)
 
 /-- **Placement.**  The residual is the concatenation of the equations' blocks in declaration order: the
 block of the first equation occupies offsets `[0, size₀)`, the rest follows. -/
@@ -26,25 +24,20 @@ theorem C01_residual_cons {α} (L : Layout) (e : Ex α) (target : Nat) (es : Lis
       let b ← eqBlock L e target
       let r ← (LModel.mk L es).residual
       pure (b ++ r)) := by
-  simp only [LModel.residual, eqBlock, List.mapM_cons, bind_assoc, pure_bind]
-  cases h1 : e.size L with
+  simp only [LModel.residual, List.mapM_cons, bind_assoc, pure_bind]
+  cases h1 : eqBlock L e target with
   | error err => simp [bind, Except.bind]
-  | ok n =>
+  | ok b =>
     simp only [bind, Except.bind]
-    cases h2 : List.mapM (fun i => Ex.lower L (if n = 1 then 0 else i) e) (List.range (max n target)) with
-    | error err => rfl
-    | ok b =>
-      simp only []
-      cases h3 : List.mapM (fun x : Ex α × Nat => Except.bind (x.1.size L) fun n =>
-          List.mapM (fun i => Ex.lower L (if n = 1 then 0 else i) x.1) (List.range (max n x.2))) es with
-      | error err => simp [pure, Except.pure]
-      | ok parts => simp [pure, Except.pure]
+    cases h3 : List.mapM (fun x : Ex α × Nat => eqBlock L x.1 x.2) es with
+    | error err => simp [pure, Except.pure]
+    | ok parts => simp [pure, Except.pure]
 
 /-- an equation with a vector `diff_var` and a scalar right-hand side has one element per element of the
 `diff_var`, all equal to the scalar (`max(rhs, lhs)` rule) -/
 theorem C01_scalar_rhs_broadcast {α} (L : Layout) (e : Ex α) (target : Nat) (h1 : e.size L = .ok 1) (x : SEx α)
     (hx : e.lower L 0 = .ok x) : eqBlock L e target = .ok (List.replicate (max 1 target) x) := by
-  simp only [eqBlock, h1, bind, Except.bind, if_true]
+  simp only [eqBlock, h1, bind, Except.bind, if_true, ne_eq, not_true_eq_false, false_and, if_false]
   have key : ∀ n : Nat, List.mapM (fun _ : Nat => Ex.lower L 0 e) (List.range n) = Except.ok (List.replicate n x) := by
     intro n
     induction n with
@@ -100,6 +93,26 @@ theorem C01_selection_within (n base : Nat) (s : Sel) (ix : List Nat) (h : s.ind
     obtain ⟨j, hj, rfl⟩ := hk
     have := sliceBounds_le' n (a.getD 0) (b.getD n)
     omega
+  | strided a b step =>
+    simp only [Sel.indices] at h
+    split at h
+    · cases h
+    · rename_i hs
+      simp only [Except.ok.injEq] at h; subst h
+      simp only [List.mem_map, List.mem_range] at hk
+      obtain ⟨j, hj, rfl⟩ := hk
+      have := strided_within n a b step hs j hj
+      omega
+  | pick ks =>
+    simp only [Sel.indices, bind, Except.bind] at h
+    cases hm : List.mapM (Heap.normIdx n) ks with
+    | error e => simp [hm] at h
+    | ok js =>
+      simp only [hm, Except.ok.injEq] at h; subst h
+      simp only [List.mem_map] at hk
+      obtain ⟨j, hj, rfl⟩ := hk
+      have := mapM_normIdx_lt hm j hj
+      omega
 
 /-! ### time series -/
 
